@@ -102,28 +102,50 @@ def build_translator(ctx):
     return True
 
 
-def run_translator(ctx, modules):
-    """regenerate coq/gen from the CURRENT /repo working tree"""
+ALL_MODULES = ["dispatch", "validators", "layouts", "tables", "families", "shapes"]
+
+
+def run_translator(ctx, modules, relevant=None):
+    """regenerate coq/gen from the CURRENT /repo working tree.
+    ALL modules are regenerated on every run (a file left over from a run against another state of /repo must never
+    be used); only a failure in one of the property's own modules is an obligation of this property: for another
+    module the previous file is kept and the failure is noted (it is an obligation of the property that owns it)."""
     gen = os.path.join(COQ, "gen")
     os.makedirs(gen, exist_ok=True)
-    tmp = os.path.join(ctx.work, "gen.new")
-    os.makedirs(tmp, exist_ok=True)
-    rc, out, dt = sh([RS2V_BIN, REPO, tmp] + list(modules), timeout=300)
-    ctx.stats["translator_s"] = round(dt, 2)
-    ok = rc == 0
-    # install only files whose content changed (keeps make's timestamps meaningful)
-    for f in sorted(os.listdir(tmp)):
-        src, dst = os.path.join(tmp, f), os.path.join(gen, f)
-        new = open(src, "rb").read()
-        if not os.path.exists(dst) or open(dst, "rb").read() != new:
-            open(dst, "wb").write(new)
-    if not ok:
-        ctx.say("rs2v failed:\n" + out[-3000:])
-        for line in out.splitlines():
-            if "FAILED" in line:
-                ctx.broken.append("translator: " + line.strip())
-        if not any(b.startswith("translator") for b in ctx.broken):
-            ctx.broken.append("translator: rs2v exit %d" % rc)
+    ok = True
+    t0 = time.time()
+    for mod in ALL_MODULES:
+        tmp = os.path.join(ctx.work, "gen.new." + mod)
+        if os.path.isdir(tmp):
+            for f in os.listdir(tmp):
+                os.remove(os.path.join(tmp, f))
+        os.makedirs(tmp, exist_ok=True)
+        rc, out, dt = sh([RS2V_BIN, REPO, tmp, mod], timeout=300)
+        mine = mod in modules
+        if mine and rc != 0 and relevant and mod in relevant:
+            # the module covers several tables: a failure in a part this property does not use is not its obligation
+            failed = [l for l in out.splitlines() if "FAILED" in l]
+            if failed and not any(re.search(relevant[mod], l) for l in failed):
+                mine = False
+        if rc == 0 or mine:
+            # install only files whose content changed (keeps make's timestamps meaningful)
+            for f in sorted(os.listdir(tmp)):
+                src, dst = os.path.join(tmp, f), os.path.join(gen, f)
+                new = open(src, "rb").read()
+                if not os.path.exists(dst) or open(dst, "rb").read() != new:
+                    open(dst, "wb").write(new)
+        if rc != 0:
+            if mine:
+                ok = False
+                ctx.say("rs2v %s failed:\n" % mod + out[-3000:])
+                for line in out.splitlines():
+                    if "FAILED" in line:
+                        ctx.broken.append("translator: " + line.strip())
+                if not any(b.startswith("translator") for b in ctx.broken):
+                    ctx.broken.append("translator: rs2v %s exit %d" % (mod, rc))
+            else:
+                ctx.notes.append("translator module %s (not one of this property's) failed; its previous output is kept" % mod)
+    ctx.stats["translator_s"] = round(time.time() - t0, 2)
     h = hashlib.sha256()
     for f in sorted(os.listdir(gen)):
         if f.endswith(".v"):
@@ -458,7 +480,7 @@ def standard_front(ctx, mod):
         ctx.broken.append("translator: build failed")
         ok = False
     else:
-        ok = run_translator(ctx, mod.TRANSLATOR) and ok
+        ok = run_translator(ctx, mod.TRANSLATOR, getattr(mod, "TRANSLATOR_RELEVANT", None)) and ok
     cok, log = coq_make(ctx, mod.COQ_TARGETS)
     thms, pa = props_theorems(ctx.prop)
     if cok:
